@@ -12,7 +12,7 @@ Definition robs_ok : robs := mkR false true.
 Definition wobs_ok : wobs := mkW false true true.
 Definition pobs_ok : pobs := mkP true true true true.
 Definition dobs_ok : dobs := mkD DOk true false true true true.
-Definition hobs_ok : hobs := mkH true true HOk true true.
+Definition hobs_ok : hobs := mkH true true HOk true true false.
 
 (* what the reaction theorem would conclude *)
 Definition reacts (st : conn) (l : label) : bool :=
@@ -43,25 +43,27 @@ Example lenient_promise_unsent :
 Proof. vm_compute. auto. Qed.
 
 (* L2: a request reset by the application before it was sent (still waiting for a concurrency slot: idle for the peer):
-   DATA on it is ignored, a PUSH_PROMISE on it is refused with RST_STREAM(CANCEL) on the promised stream *)
+   DATA on it is ignored *)
 Definition st_l2 : conn :=
   mk_conn Client [(1, mkS 1 (Closed (CError (EReset 1 8 User))) true false true
                          [QHeaders false false; QReset 8] None)] [(1, 1)] 3 2.
 Example lenient_reset_before_sent :
-  demands_conn_error st_l2 1 DATA = true /\ reacts st_l2 (LRecvData 1 false dobs_ok) = false /\
-  demands_conn_error st_l2 1 PUSH_PROMISE = true /\ reacts st_l2 (LRecvPushPromise 1 2 pobs_ok 9) = false.
+  demands_conn_error st_l2 1 DATA = true /\ reacts st_l2 (LRecvData 1 false dobs_ok) = false.
 Proof. vm_compute. auto. Qed.
 
-(* L3: a PUSH_PROMISE on a request that has not been sent yet is accepted and handed to the application *)
+(* repaired by 28d67d9 (found with this model, replays corpus/dispatch/lenient_push_on_pending_open.json and
+   lenient_reserved_remote.json): a PUSH_PROMISE on a request that has not been sent yet, on a request reset before it
+   was sent, and on a stream that is itself pushed used to be accepted (the nested promise was reserved and parked where
+   no API reaches it); now each is a connection error *)
 Definition st_l3 : conn :=
   mk_conn Client [(1, mkS 1 (Open Streaming AwaitingHeaders) true false false [QHeaders false false] None)] [(1, 1)] 3 2.
-Example lenient_push_on_unsent_request :
-  demands_conn_error st_l3 1 PUSH_PROMISE = true /\
-  match step st_l3 (LRecvPushPromise 1 2 pobs_ok 9) with
-  | Ok _ outs => is_conn_error (result_of outs) = false /\ has_app outs = true
-  | _ => False
-  end.
-Proof. vm_compute. auto. Qed.
+Definition st_l5 : conn :=
+  mk_conn Client [(2, mkS 2 ReservedRemote false false false [] None)] [(2, 2)] 1 4.
+Example push_only_on_a_seen_request :
+  demands_conn_error st_l3 1 PUSH_PROMISE = true /\ reacts st_l3 (LRecvPushPromise 1 2 pobs_ok 9) = true /\
+  demands_conn_error st_l2 1 PUSH_PROMISE = true /\ reacts st_l2 (LRecvPushPromise 1 2 pobs_ok 9) = true /\
+  demands_conn_error st_l5 2 PUSH_PROMISE = true /\ reacts st_l5 (LRecvPushPromise 2 4 pobs_ok 9) = true.
+Proof. vm_compute. auto 10. Qed.
 
 (* L4: HEADERS without END_STREAM on a stream this server has promised (reserved (local)) get a stream error where
    5.1 demands a connection error *)
@@ -71,17 +73,9 @@ Example lenient_headers_on_reserved_local :
   demands_conn_error st_l4 2 HEADERS = true /\ reacts st_l4 (LRecvHeaders 2 false false hobs_ok 9) = false.
 Proof. vm_compute. auto. Qed.
 
-(* L5: on a stream the peer has promised (reserved (remote)) WINDOW_UPDATE is accepted, and so is a PUSH_PROMISE that
-   names it as the parent: the nested promise is handed to the application *)
-Definition st_l5 : conn :=
-  mk_conn Client [(2, mkS 2 ReservedRemote false false false [] None)] [(2, 2)] 1 4.
+(* L5: on a stream the peer has promised (reserved (remote)) WINDOW_UPDATE is accepted *)
 Example lenient_on_reserved_remote :
-  demands_conn_error st_l5 2 WINDOW_UPDATE = true /\ reacts st_l5 (LRecvWindowUpdate 2 wobs_ok) = false /\
-  demands_conn_error st_l5 2 PUSH_PROMISE = true /\
-  match step st_l5 (LRecvPushPromise 2 4 pobs_ok 9) with
-  | Ok _ outs => is_conn_error (result_of outs) = false /\ has_app outs = true
-  | _ => False
-  end.
+  demands_conn_error st_l5 2 WINDOW_UPDATE = true /\ reacts st_l5 (LRecvWindowUpdate 2 wobs_ok) = false.
 Proof. vm_compute. auto. Qed.
 
 (* the exclusion is needed: without it the reaction theorem is false *)
